@@ -16,7 +16,7 @@ class FormulaRecorder:
     def __init__(self, node_of_frame):
         """node_of_frame(space_interface, code, frame_locals) -> node json or None."""
         self.node_of_frame = node_of_frame
-        self.codes = set()
+        self.codes = {}     # id(code) -> code (code objects compare by value: key by identity)
         self.fx = []
         self.active = False
         self.stack = []   # (frame id, node)
@@ -39,7 +39,7 @@ class FormulaRecorder:
             return
         E = mon.events
         mon.set_events(TOOL, 0)
-        for code in self.codes:
+        for code in self.codes.values():
             try:
                 mon.set_local_events(TOOL, code, 0)
             except Exception:
@@ -51,8 +51,8 @@ class FormulaRecorder:
         self.active = False
 
     def watch(self, code):
-        if code not in self.codes:
-            self.codes.add(code)
+        if id(code) not in self.codes:
+            self.codes[id(code)] = code
             E = mon.events
             mon.set_local_events(TOOL, code, E.PY_START | E.PY_RETURN)
 
@@ -63,7 +63,7 @@ class FormulaRecorder:
 
     # -- callbacks ---------------------------------------------------------
     def _on_start(self, code, offset):
-        if code not in self.codes:
+        if id(code) not in self.codes:
             return mon.DISABLE
         frame = sys._getframe(1)
         if frame.f_code is not code:
@@ -81,7 +81,7 @@ class FormulaRecorder:
         self.fx.append(["enter", node])
 
     def _on_return(self, code, offset, retval):
-        if code not in self.codes:
+        if id(code) not in self.codes:
             return mon.DISABLE
         frame = sys._getframe(1)
         if self.stack and self.stack[-1][0] == id(frame):
@@ -89,7 +89,7 @@ class FormulaRecorder:
             self.fx.append(["exit", node, retval])
 
     def _on_unwind(self, code, offset, exc):
-        if code not in self.codes:
+        if id(code) not in self.codes:
             return
         frame = sys._getframe(1)
         if self.stack and self.stack[-1][0] == id(frame):
